@@ -15,11 +15,21 @@
   A.4 compose_decompose   (helpers U128_ext, Decimal_ext)
   A.5 interp_zero, interp_inf, interp_one, interp_nan, setNeg, interp_setNeg, Abs_lo, Neg_lo,
        Abs_hi_toNat, Neg_hi_toNat, interp_Abs, interp_Neg, class_of_low63, Abs_class, Neg_class,
-       Signbit_Abs, Signbit_Neg, Neg_Neg
-  B.  (marshalling lemmas, see the second half of the file)
+       Signbit_Abs, Signbit_Neg, Neg_Neg, IsInf_eq, IsInf_spec,
+       nan_hi, nan_lo, IsNaN_nan, isInf_nan, isSpecial_nan, Signbit_nan, Payload_nan, Payload_ok_iff,
+       isInf_inf, IsNaN_inf, isSpecial_inf, Signbit_inf, IsZero_zero, isSpecial_zero, Signbit_zero,
+       decompose_zero, isSpecial_one, IsZero_one, Signbit_one, decompose_one
+  B. marshalling (used by D128/Props/C12.lean):
+    bytesOf (the 16 big-endian bytes), marshal_eq : MarshalBinary d = .ok (bytesOf d, .nil),
+    bytesOf_size, beNat_bytesOf, bidDecode_of_beNat, bidDecode_bytesOf,
+    word8, word8_toNat, word8_bytes, word8_unbytes, unmarshal_eq (size = 16), len_ne_16,
+    unmarshal_bad (size ≠ 16), bget_ok, unmarshal_no_panic, unmarshal_bytesOf, array16_eq, bytesOf_words,
+    bytesOf_of_unmarshal, bidDecode_of_unmarshal, not_steering_of_canonical, compose_not_steering,
+    compose_steering_iff, bytesOf_first, bytesOf_prefix
 -/
 import D128.Gen.Decimal3
 import D128.Gen.Binary
+import D128.Gen.Payload
 import D128.Spec.Bid
 
 namespace Enc
@@ -536,5 +546,418 @@ theorem Neg_Neg (d : Gen.Decimal) : Gen.Decimal.Neg (Gen.Decimal.Neg d) = d := b
   apply Decimal_ext
   · rfl
   · omega
+
+/-! ## predicates on the constructors, Payload -/
+
+section ctor
+set_option maxRecDepth 4096
+theorem nan_hi (op l r : UInt64) : (Gen.nan op l r).hi = 8935141660703064064 := rfl
+theorem nan_lo (op l r : UInt64) : (Gen.nan op l r).lo = ((op ||| Go.shl l 8) ||| Go.shl r 16) := rfl
+theorem IsNaN_nan (op l r : UInt64) : Gen.Decimal.IsNaN (Gen.nan op l r) = true := by
+  rw [IsNaN_eq, nan_hi]; rfl
+theorem isInf_nan (op l r : UInt64) : Gen.Decimal.isInf (Gen.nan op l r) = false := by
+  rw [isInf_eq, nan_hi]; rfl
+theorem isSpecial_nan (op l r : UInt64) : Gen.Decimal.isSpecial (Gen.nan op l r) = true := by
+  rw [isSpecial_eq, nan_hi]; rfl
+theorem Signbit_nan (op l r : UInt64) : Gen.Decimal.Signbit (Gen.nan op l r) = false := by
+  rw [Signbit_eq, nan_hi]; rfl
+theorem Payload_nan (op l r : UInt64) :
+    Gen.Decimal.Payload_ (Gen.nan op l r) = .ok ((op ||| Go.shl l 8) ||| Go.shl r 16) := by
+  unfold Gen.Decimal.Payload_
+  rw [IsNaN_nan, nan_lo]; rfl
+theorem Payload_ok_iff (d : Gen.Decimal) :
+    (∃ p, Gen.Decimal.Payload_ d = .ok p) ↔ Gen.Decimal.IsNaN d = true := by
+  unfold Gen.Decimal.Payload_
+  cases h : Gen.Decimal.IsNaN d
+  · simp only [Bool.not_false, if_true, Bool.false_eq_true, iff_false]
+    rintro ⟨p, hp⟩; cases hp
+  · simp only [Bool.not_true, Bool.false_eq_true, if_false, iff_true]
+    exact ⟨_, rfl⟩
+theorem isInf_inf (neg : Bool) : Gen.Decimal.isInf (Gen.inf neg) = true := by cases neg <;> rfl
+theorem IsNaN_inf (neg : Bool) : Gen.Decimal.IsNaN (Gen.inf neg) = false := by cases neg <;> rfl
+theorem isSpecial_inf (neg : Bool) : Gen.Decimal.isSpecial (Gen.inf neg) = true := by cases neg <;> rfl
+theorem Signbit_inf (neg : Bool) : Gen.Decimal.Signbit (Gen.inf neg) = neg := by cases neg <;> rfl
+theorem IsZero_zero (neg : Bool) : Gen.Decimal.IsZero (Gen.zero neg) = true := by cases neg <;> rfl
+theorem isSpecial_zero (neg : Bool) : Gen.Decimal.isSpecial (Gen.zero neg) = false := by cases neg <;> rfl
+theorem Signbit_zero (neg : Bool) : Gen.Decimal.Signbit (Gen.zero neg) = neg := by cases neg <;> rfl
+theorem decompose_zero (neg : Bool) : Gen.Decimal.decompose (Gen.zero neg) = (⟨0, 0⟩, 0) := by
+  cases neg <;> rfl
+theorem isSpecial_one (neg : Bool) : Gen.Decimal.isSpecial (Gen.one neg) = false := by cases neg <;> rfl
+theorem IsZero_one (neg : Bool) : Gen.Decimal.IsZero (Gen.one neg) = false := by cases neg <;> rfl
+theorem Signbit_one (neg : Bool) : Gen.Decimal.Signbit (Gen.one neg) = neg := by cases neg <;> rfl
+theorem decompose_one (neg : Bool) : Gen.Decimal.decompose (Gen.one neg) = (⟨1, 0⟩, 6176) := by
+  cases neg <;> rfl
+end ctor
+
+/-! ## the exported IsInf -/
+
+theorem IsInf_eq (d : Gen.Decimal) (sign : Int64) :
+    Gen.Decimal.IsInf d sign =
+      (Gen.Decimal.isInf d &&
+        (sign == 0 || (if sign > 0 then !Gen.Decimal.Signbit d else Gen.Decimal.Signbit d))) := by
+  unfold Gen.Decimal.IsInf
+  simp only [Id.run, pure]
+  cases h1 : Gen.Decimal.isInf d <;> by_cases h2 : sign = 0 <;> by_cases h3 : sign > 0 <;> simp [h2, h3]
+
+/-- `IsInf d sign` holds exactly when the bits read as an infinity whose sign agrees with `sign` -/
+theorem IsInf_spec (d : Gen.Decimal) (sign : Int64) :
+    Gen.Decimal.IsInf d sign = true ↔
+      ∃ neg, Spec.interp d.lo d.hi = .inf neg ∧
+        (sign = 0 ∨ (sign > 0 ∧ neg = false) ∨ (¬ sign > 0 ∧ neg = true)) := by
+  rw [IsInf_eq, ← interp_isInf, ← interp_neg]
+  cases h : Spec.interp d.lo d.hi with
+  | nan n p => simp [Spec.Val.isInf]
+  | fin n c e => simp [Spec.Val.isInf]
+  | inf n =>
+    by_cases h2 : sign = 0 <;> by_cases h3 : sign > 0 <;> cases n <;>
+      simp [Spec.Val.isInf, Spec.Val.neg, h2, h3]
+
+/-! ## B. marshalling -/
+
+
+/-- the sixteen big-endian bytes of `d` -/
+def bytesOf (d : Gen.Decimal) : Array UInt8 :=
+  #[(Go.conv (Go.shr d.hi (56 : Int)) : UInt8), (Go.conv (Go.shr d.hi (48 : Int)) : UInt8),
+    (Go.conv (Go.shr d.hi (40 : Int)) : UInt8), (Go.conv (Go.shr d.hi (32 : Int)) : UInt8),
+    (Go.conv (Go.shr d.hi (24 : Int)) : UInt8), (Go.conv (Go.shr d.hi (16 : Int)) : UInt8),
+    (Go.conv (Go.shr d.hi (8 : Int)) : UInt8), (Go.conv d.hi : UInt8),
+    (Go.conv (Go.shr d.lo (56 : Int)) : UInt8), (Go.conv (Go.shr d.lo (48 : Int)) : UInt8),
+    (Go.conv (Go.shr d.lo (40 : Int)) : UInt8), (Go.conv (Go.shr d.lo (32 : Int)) : UInt8),
+    (Go.conv (Go.shr d.lo (24 : Int)) : UInt8), (Go.conv (Go.shr d.lo (16 : Int)) : UInt8),
+    (Go.conv (Go.shr d.lo (8 : Int)) : UInt8), (Go.conv d.lo : UInt8)]
+
+theorem marshal_eq (d : Gen.Decimal) :
+    Gen.Decimal.MarshalBinary d = .ok (bytesOf d, Go.Err.nil) := by
+  unfold Gen.Decimal.MarshalBinary
+  have e : (Array.replicate (Go.idx (16 : Int64)).toNat (0 : UInt8))
+      = #[0,0,0,0,0,0,0,0,0,0,0,0,0,0,0,0] := rfl
+  rw [e]
+  simp [Go.bset, bytesOf]
+  rfl
+
+theorem conv_shr_u8 (x : UInt64) (s : Int) (h0 : 0 ≤ s) (hs : s < 64) :
+    (Go.conv (Go.shr x s) : UInt8).toNat = x.toNat / 2^s.toNat % 256 := by
+  rw [conv_u64_u8, shr_toNat _ _ h0 hs]
+
+theorem be8 (a x : Nat) (hx : x < 2^64) :
+    (((((((a * 256 + x / 72057594037927936 % 256) * 256 + x / 281474976710656 % 256) * 256 + x / 1099511627776 % 256) * 256
+      + x / 4294967296 % 256) * 256 + x / 16777216 % 256) * 256 + x / 65536 % 256) * 256 + x / 256 % 256) * 256
+      + x % 256 = a * 2^64 + x := by omega
+theorem cs56 (x : UInt64) : (Go.conv (Go.shr x (56:Int)) : UInt8).toNat = x.toNat / 72057594037927936 % 256 :=
+  conv_shr_u8 x 56 (by decide) (by decide)
+theorem cs48 (x : UInt64) : (Go.conv (Go.shr x (48:Int)) : UInt8).toNat = x.toNat / 281474976710656 % 256 :=
+  conv_shr_u8 x 48 (by decide) (by decide)
+theorem cs40 (x : UInt64) : (Go.conv (Go.shr x (40:Int)) : UInt8).toNat = x.toNat / 1099511627776 % 256 :=
+  conv_shr_u8 x 40 (by decide) (by decide)
+theorem cs32 (x : UInt64) : (Go.conv (Go.shr x (32:Int)) : UInt8).toNat = x.toNat / 4294967296 % 256 :=
+  conv_shr_u8 x 32 (by decide) (by decide)
+theorem cs24 (x : UInt64) : (Go.conv (Go.shr x (24:Int)) : UInt8).toNat = x.toNat / 16777216 % 256 :=
+  conv_shr_u8 x 24 (by decide) (by decide)
+theorem cs16 (x : UInt64) : (Go.conv (Go.shr x (16:Int)) : UInt8).toNat = x.toNat / 65536 % 256 :=
+  conv_shr_u8 x 16 (by decide) (by decide)
+theorem cs8 (x : UInt64) : (Go.conv (Go.shr x (8:Int)) : UInt8).toNat = x.toNat / 256 % 256 :=
+  conv_shr_u8 x 8 (by decide) (by decide)
+
+theorem beNat_bytesOf (d : Gen.Decimal) : Spec.beNat (bytesOf d) = d.hi.toNat * 2^64 + d.lo.toNat := by
+  have hh := d.hi.toNat_lt
+  have hl := d.lo.toNat_lt
+  simp only [Spec.beNat, bytesOf, List.foldl_toArray, List.foldl_cons, List.foldl_nil,
+    cs56, cs48, cs40, cs32, cs24, cs16, cs8]
+  simp only [conv_u64_u8]
+  rw [be8 0 _ hh, be8 _ _ hl]
+  omega
+
+theorem bytesOf_size (d : Gen.Decimal) : (bytesOf d).size = 16 := rfl
+
+section bidfields
+variable (H L : Nat)
+theorem bid_e1 : (H * 2^64 + L) / 2^110 % 2^17 / 2^12 = (H * 2^64 + L) / 2^122 % 32 := by omega
+theorem bid_e2 : (H * 2^64 + L) / 2^110 % 2^17 / 2^15 = (H * 2^64 + L) / 2^125 % 4 := by omega
+theorem bid_e5 : (H * 2^64 + L) / 2^110 % 2^17 / 2 % 2^14 = (H * 2^64 + L) / 2^111 % 2^14 := by omega
+theorem bid_e7 : (H * 2^64 + L) / 2^110 % 2^17 / 2^3 = (H * 2^64 + L) / 2^113 % 2^14 := by omega
+theorem bid_e6 : (8 + (H * 2^64 + L) / 2^110 % 2^17 % 2) * 2^110 + (H * 2^64 + L) % 2^110
+      = 2^113 + (H * 2^64 + L) % 2^111 := by omega
+theorem bid_e8 : ((H * 2^64 + L) / 2^110 % 2^17 % 8) * 2^110 + (H * 2^64 + L) % 2^110
+      = (H * 2^64 + L) % 2^113 := by omega
+variable (hl : L < 2^64)
+include hl
+theorem split_div63 : (H * 2^64 + L) / 2^127 = H / 2^63 := by omega
+theorem split_div58 : (H * 2^64 + L) / 2^122 = H / 2^58 := by omega
+theorem split_div61 : (H * 2^64 + L) / 2^125 = H / 2^61 := by omega
+theorem split_div47 : (H * 2^64 + L) / 2^111 = H / 2^47 := by omega
+theorem split_div49 : (H * 2^64 + L) / 2^113 = H / 2^49 := by omega
+theorem split_mod64 : (H * 2^64 + L) % 2^64 = L := by omega
+theorem split_mod111 : (H * 2^64 + L) % 2^111 = H % 2^47 * 2^64 + L := by omega
+theorem split_mod113 : (H * 2^64 + L) % 2^113 = H % 2^49 * 2^64 + L := by omega
+end bidfields
+
+/-- the IEEE decoder applied to a 16-byte string whose big-endian value is hi·2^64+lo -/
+theorem bidDecode_of_beNat (b : Array UInt8) (lo hi : UInt64) (hsz : b.size = 16)
+    (hN : Spec.beNat b = hi.toNat * 2^64 + lo.toNat) :
+    Spec.bidDecode b = some (Spec.interp lo hi) := by
+  have hh := hi.toNat_lt
+  have hl := lo.toNat_lt
+  unfold Spec.bidDecode
+  rw [interp_eq]
+  simp only [hsz, ne_eq, not_true_eq_false, if_false, hN, beq_iff_eq, Spec.bias]
+  rw [bid_e1, bid_e2, bid_e5, bid_e6, bid_e7, bid_e8, split_div63 _ _ hl, split_div58 _ _ hl,
+    split_div61 _ _ hl, split_div47 _ _ hl, split_div49 _ _ hl, split_mod64 _ _ hl, split_mod111 _ _ hl,
+    split_mod113 _ _ hl]
+  have es : (hi.toNat / 2^63 == 1) = decide (hi.toNat / 2^63 % 2 = 1) := by
+    have : hi.toNat / 2^63 % 2 = hi.toNat / 2^63 := by omega
+    rw [this]; by_cases hq : hi.toNat / 2^63 = 1 <;> simp [hq]
+  have ec : 2 ^ 113 + (hi.toNat % 2 ^ 47 * 2 ^ 64 + lo.toNat) = (2 ^ 49 + hi.toNat % 2 ^ 47) * 2 ^ 64 + lo.toNat := by
+    omega
+  rw [es, ec, UInt64.ofNat_toNat]
+  repeat' split
+  all_goals rfl
+
+theorem bidDecode_bytesOf (d : Gen.Decimal) :
+    Spec.bidDecode (bytesOf d) = some (Spec.interp d.lo d.hi) :=
+  bidDecode_of_beNat _ _ _ (bytesOf_size d) (beNat_bytesOf d)
+
+/-- little-endian assembly of eight bytes, as written in UnmarshalBinary -/
+def word8 (b0 b1 b2 b3 b4 b5 b6 b7 : UInt8) : UInt64 :=
+  (((((((((Go.conv b0 : UInt64) ||| (Go.shl (Go.conv b1 : UInt64) (8 : Int)))
+    ||| (Go.shl (Go.conv b2 : UInt64) (16 : Int))) ||| (Go.shl (Go.conv b3 : UInt64) (24 : Int)))
+    ||| (Go.shl (Go.conv b4 : UInt64) (32 : Int))) ||| (Go.shl (Go.conv b5 : UInt64) (40 : Int)))
+    ||| (Go.shl (Go.conv b6 : UInt64) (48 : Int))) ||| (Go.shl (Go.conv b7 : UInt64) (56 : Int))))
+
+theorem shl_conv_u8 (b : UInt8) (s : Int) (h0 : 0 ≤ s) (hs : s ≤ 56) :
+    (Go.shl (Go.conv b : UInt64) s).toNat = b.toNat * 2^s.toNat := by
+  have hb := b.toNat_lt
+  rw [shl_toNat _ _ h0 (by omega), conv_u8_u64]
+  apply Nat.mod_eq_of_lt
+  have h1 : s.toNat ≤ 56 := by omega
+  calc b.toNat * 2^s.toNat ≤ b.toNat * 2^56 := Nat.mul_le_mul_left _ (Nat.pow_le_pow_right (by decide) h1)
+    _ < 2^64 := by omega
+
+theorem word8_toNat (b0 b1 b2 b3 b4 b5 b6 b7 : UInt8) :
+    (word8 b0 b1 b2 b3 b4 b5 b6 b7).toNat =
+      b0.toNat + b1.toNat * 2^8 + b2.toNat * 2^16 + b3.toNat * 2^24 + b4.toNat * 2^32
+        + b5.toNat * 2^40 + b6.toNat * 2^48 + b7.toNat * 2^56 := by
+  have h0 := b0.toNat_lt; have h1 := b1.toNat_lt; have h2 := b2.toNat_lt; have h3 := b3.toNat_lt
+  have h4 := b4.toNat_lt; have h5 := b5.toNat_lt; have h6 := b6.toNat_lt; have h7 := b7.toNat_lt
+  simp only [word8, UInt64.toNat_or, conv_u8_u64,
+    shl_conv_u8 _ _ (by decide : (0:Int) ≤ 8) (by decide),
+    shl_conv_u8 _ _ (by decide : (0:Int) ≤ 16) (by decide),
+    shl_conv_u8 _ _ (by decide : (0:Int) ≤ 24) (by decide),
+    shl_conv_u8 _ _ (by decide : (0:Int) ≤ 32) (by decide),
+    shl_conv_u8 _ _ (by decide : (0:Int) ≤ 40) (by decide),
+    shl_conv_u8 _ _ (by decide : (0:Int) ≤ 48) (by decide),
+    shl_conv_u8 _ _ (by decide : (0:Int) ≤ 56) (by decide), Int.reduceToNat]
+  rw [or_disj _ _ 8 (by omega), or_disj _ _ 16 (by omega), or_disj _ _ 24 (by omega),
+    or_disj _ _ 32 (by omega), or_disj _ _ 40 (by omega), or_disj _ _ 48 (by omega),
+    or_disj _ _ 56 (by omega)]
+
+
+theorem unmarshal_eq (d0 : Gen.Decimal) (data : Go.Bytes) (h : data.size = 16) :
+    Gen.Decimal.UnmarshalBinary d0 data =
+      .ok (⟨word8 data[15] data[14] data[13] data[12] data[11] data[10] data[9] data[8],
+            word8 data[7] data[6] data[5] data[4] data[3] data[2] data[1] data[0]⟩, Go.Err.nil) := by
+  unfold Gen.Decimal.UnmarshalBinary
+  simp [Go.len, Go.bget, h, word8]
+  rfl
+
+theorem len_ne_16 (data : Go.Bytes) (h : data.size ≠ 16) (hlt : data.size < 2^64) :
+    (Go.len data != (16 : Int64)) = true := by
+  simp only [Go.len, bne_iff_ne, ne_eq]
+  intro e
+  have this : (Int64.ofNat data.size).toInt = 16 := by rw [e]; rfl
+  rw [Int64.toInt_ofNat'] at this
+  simp only [Int.bmod, Int64.size] at this
+  split at this <;> omega
+
+theorem unmarshal_bad (d0 : Gen.Decimal) (data : Go.Bytes) (h : data.size ≠ 16) (hlt : data.size < 2^64) :
+    Gen.Decimal.UnmarshalBinary d0 data = .ok (d0, Go.Err.errorsNew) := by
+  unfold Gen.Decimal.UnmarshalBinary
+  simp only [len_ne_16 data h hlt, if_true]
+  rfl
+
+theorem bget_ok (b : Go.Bytes) (i : Nat) (h : i < b.size) : Go.bget b (i : Int) = .ok b[i] := by
+  unfold Go.bget
+  rw [dif_pos ⟨by omega, by simpa using h⟩]
+  rfl
+
+/-- UnmarshalBinary returns normally on every input (also on the slices of impossible length
+    ≥ 2^64 on which `Go.len` wraps). -/
+theorem unmarshal_no_panic (d0 : Gen.Decimal) (data : Go.Bytes) :
+    ∃ d1 e, Gen.Decimal.UnmarshalBinary d0 data = .ok (d1, e) := by
+  by_cases hl : (Go.len data != (16 : Int64)) = true
+  · refine ⟨d0, Go.Err.errorsNew, ?_⟩
+    unfold Gen.Decimal.UnmarshalBinary
+    simp only [hl, if_true]
+    rfl
+  · have hsz : 16 ≤ data.size := by
+      simp only [Go.len, bne_iff_ne, ne_eq, Decidable.not_not] at hl
+      have this : (Int64.ofNat data.size).toInt = 16 := by rw [hl]; rfl
+      rw [Int64.toInt_ofNat'] at this
+      simp only [Int.bmod, Int64.size] at this
+      split at this <;> omega
+    have b0 : Go.bget data (0:Int) = .ok data[0] := bget_ok data 0 (by omega)
+    have b1 : Go.bget data (1:Int) = .ok data[1] := bget_ok data 1 (by omega)
+    have b2 : Go.bget data (2:Int) = .ok data[2] := bget_ok data 2 (by omega)
+    have b3 : Go.bget data (3:Int) = .ok data[3] := bget_ok data 3 (by omega)
+    have b4 : Go.bget data (4:Int) = .ok data[4] := bget_ok data 4 (by omega)
+    have b5 : Go.bget data (5:Int) = .ok data[5] := bget_ok data 5 (by omega)
+    have b6 : Go.bget data (6:Int) = .ok data[6] := bget_ok data 6 (by omega)
+    have b7 : Go.bget data (7:Int) = .ok data[7] := bget_ok data 7 (by omega)
+    have b8 : Go.bget data (8:Int) = .ok data[8] := bget_ok data 8 (by omega)
+    have b9 : Go.bget data (9:Int) = .ok data[9] := bget_ok data 9 (by omega)
+    have b10 : Go.bget data (10:Int) = .ok data[10] := bget_ok data 10 (by omega)
+    have b11 : Go.bget data (11:Int) = .ok data[11] := bget_ok data 11 (by omega)
+    have b12 : Go.bget data (12:Int) = .ok data[12] := bget_ok data 12 (by omega)
+    have b13 : Go.bget data (13:Int) = .ok data[13] := bget_ok data 13 (by omega)
+    have b14 : Go.bget data (14:Int) = .ok data[14] := bget_ok data 14 (by omega)
+    have b15 : Go.bget data (15:Int) = .ok data[15] := bget_ok data 15 (by omega)
+    unfold Gen.Decimal.UnmarshalBinary
+    simp only [hl, b0, b1, b2, b3, b4, b5, b6, b7, b8, b9, b10, b11, b12, b13, b14, b15]
+    exact ⟨_, _, rfl⟩
+
+theorem word8_bytes (x : UInt64) :
+    word8 (Go.conv x) (Go.conv (Go.shr x (8 : Int))) (Go.conv (Go.shr x (16 : Int)))
+      (Go.conv (Go.shr x (24 : Int))) (Go.conv (Go.shr x (32 : Int))) (Go.conv (Go.shr x (40 : Int)))
+      (Go.conv (Go.shr x (48 : Int))) (Go.conv (Go.shr x (56 : Int))) = x := by
+  apply UInt64.toNat_inj.mp
+  have hx := x.toNat_lt
+  rw [word8_toNat]
+  simp only [conv_u64_u8,
+    conv_shr_u8 _ _ (by decide : (0:Int) ≤ 56) (by decide),
+    conv_shr_u8 _ _ (by decide : (0:Int) ≤ 48) (by decide),
+    conv_shr_u8 _ _ (by decide : (0:Int) ≤ 40) (by decide),
+    conv_shr_u8 _ _ (by decide : (0:Int) ≤ 32) (by decide),
+    conv_shr_u8 _ _ (by decide : (0:Int) ≤ 24) (by decide),
+    conv_shr_u8 _ _ (by decide : (0:Int) ≤ 16) (by decide),
+    conv_shr_u8 _ _ (by decide : (0:Int) ≤ 8) (by decide), Int.reduceToNat, Nat.reducePow]
+  omega
+
+theorem unmarshal_bytesOf (d0 d : Gen.Decimal) :
+    Gen.Decimal.UnmarshalBinary d0 (bytesOf d) = .ok (d, Go.Err.nil) := by
+  rw [unmarshal_eq d0 (bytesOf d) (bytesOf_size d)]
+  have hlo := word8_bytes d.lo
+  have hhi := word8_bytes d.hi
+  have e : ∀ (lo hi : UInt64), lo = d.lo → hi = d.hi →
+      (Except.ok (⟨lo, hi⟩, Go.Err.nil) : Go.GoM (Gen.Decimal × Go.Err)) = .ok (d, Go.Err.nil) := by
+    intro lo hi h1 h2; subst h1; subst h2; rfl
+  exact e _ _ hlo hhi
+
+theorem array16_eq (data : Array UInt8) (h : data.size = 16) :
+    data = #[data[0], data[1], data[2], data[3], data[4], data[5], data[6], data[7],
+             data[8], data[9], data[10], data[11], data[12], data[13], data[14], data[15]] := by
+  apply Array.ext
+  · simp [h]
+  · intro i h1 h2
+    match i, h1, h2 with
+    | 0, _, _ => rfl
+    | 1, _, _ => rfl
+    | 2, _, _ => rfl
+    | 3, _, _ => rfl
+    | 4, _, _ => rfl
+    | 5, _, _ => rfl
+    | 6, _, _ => rfl
+    | 7, _, _ => rfl
+    | 8, _, _ => rfl
+    | 9, _, _ => rfl
+    | 10, _, _ => rfl
+    | 11, _, _ => rfl
+    | 12, _, _ => rfl
+    | 13, _, _ => rfl
+    | 14, _, _ => rfl
+    | 15, _, _ => rfl
+    | n + 16, h1, _ => omega
+
+theorem u8_eq_of_toNat (a b : UInt8) (h : a.toNat = b.toNat) : a = b := UInt8.toNat_inj.mp h
+
+theorem word8_unbytes (b0 b1 b2 b3 b4 b5 b6 b7 : UInt8) :
+    (Go.conv (word8 b0 b1 b2 b3 b4 b5 b6 b7) : UInt8) = b0 ∧
+    (Go.conv (Go.shr (word8 b0 b1 b2 b3 b4 b5 b6 b7) (8 : Int)) : UInt8) = b1 ∧
+    (Go.conv (Go.shr (word8 b0 b1 b2 b3 b4 b5 b6 b7) (16 : Int)) : UInt8) = b2 ∧
+    (Go.conv (Go.shr (word8 b0 b1 b2 b3 b4 b5 b6 b7) (24 : Int)) : UInt8) = b3 ∧
+    (Go.conv (Go.shr (word8 b0 b1 b2 b3 b4 b5 b6 b7) (32 : Int)) : UInt8) = b4 ∧
+    (Go.conv (Go.shr (word8 b0 b1 b2 b3 b4 b5 b6 b7) (40 : Int)) : UInt8) = b5 ∧
+    (Go.conv (Go.shr (word8 b0 b1 b2 b3 b4 b5 b6 b7) (48 : Int)) : UInt8) = b6 ∧
+    (Go.conv (Go.shr (word8 b0 b1 b2 b3 b4 b5 b6 b7) (56 : Int)) : UInt8) = b7 := by
+  have h0 := b0.toNat_lt; have h1 := b1.toNat_lt; have h2 := b2.toNat_lt; have h3 := b3.toNat_lt
+  have h4 := b4.toNat_lt; have h5 := b5.toNat_lt; have h6 := b6.toNat_lt; have h7 := b7.toNat_lt
+  have hw := word8_toNat b0 b1 b2 b3 b4 b5 b6 b7
+  generalize word8 b0 b1 b2 b3 b4 b5 b6 b7 = w at *
+  refine ⟨?_, ?_, ?_, ?_, ?_, ?_, ?_, ?_⟩ <;> apply u8_eq_of_toNat
+  · rw [conv_u64_u8]; omega
+  · rw [conv_shr_u8 _ _ (by decide) (by decide)]; simp only [Int.reduceToNat]; omega
+  · rw [conv_shr_u8 _ _ (by decide) (by decide)]; simp only [Int.reduceToNat]; omega
+  · rw [conv_shr_u8 _ _ (by decide) (by decide)]; simp only [Int.reduceToNat]; omega
+  · rw [conv_shr_u8 _ _ (by decide) (by decide)]; simp only [Int.reduceToNat]; omega
+  · rw [conv_shr_u8 _ _ (by decide) (by decide)]; simp only [Int.reduceToNat]; omega
+  · rw [conv_shr_u8 _ _ (by decide) (by decide)]; simp only [Int.reduceToNat]; omega
+  · rw [conv_shr_u8 _ _ (by decide) (by decide)]; simp only [Int.reduceToNat]; omega
+
+
+theorem bytesOf_words (a0 a1 a2 a3 a4 a5 a6 a7 c0 c1 c2 c3 c4 c5 c6 c7 : UInt8) :
+    bytesOf ⟨word8 c0 c1 c2 c3 c4 c5 c6 c7, word8 a0 a1 a2 a3 a4 a5 a6 a7⟩
+      = #[a7, a6, a5, a4, a3, a2, a1, a0, c7, c6, c5, c4, c3, c2, c1, c0] := by
+  obtain ⟨x0, x1, x2, x3, x4, x5, x6, x7⟩ := word8_unbytes a0 a1 a2 a3 a4 a5 a6 a7
+  obtain ⟨y0, y1, y2, y3, y4, y5, y6, y7⟩ := word8_unbytes c0 c1 c2 c3 c4 c5 c6 c7
+  simp only [bytesOf, x0, x1, x2, x3, x4, x5, x6, x7, y0, y1, y2, y3, y4, y5, y6, y7]
+
+theorem bytesOf_of_unmarshal (d0 d1 : Gen.Decimal) (data : Go.Bytes) (hsz : data.size = 16)
+    (h : Gen.Decimal.UnmarshalBinary d0 data = .ok (d1, Go.Err.nil)) : bytesOf d1 = data := by
+  rw [unmarshal_eq d0 data hsz] at h
+  injection h with h; injection h with h _
+  rw [← h, bytesOf_words]
+  exact (array16_eq data hsz).symm
+
+theorem bidDecode_of_unmarshal (d0 d1 : Gen.Decimal) (data : Go.Bytes) (hsz : data.size = 16)
+    (h : Gen.Decimal.UnmarshalBinary d0 data = .ok (d1, Go.Err.nil)) :
+    Spec.bidDecode data = some (Spec.interp d1.lo d1.hi) := by
+  rw [← bidDecode_bytesOf d1, bytesOf_of_unmarshal d0 d1 data hsz h]
+
+theorem not_steering_of_canonical (d : Gen.Decimal)
+    (hc : Spec.ieeeCanonical (Gen.Decimal.decompose d).1.toNat = true) :
+    d.hi.toNat / 2^61 % 4 ≠ 3 := by
+  rw [Spec.ieeeCanonical, decompose_sig_toNat] at hc
+  simp only [decide_eq_true_eq, Nat.reducePow] at hc
+  intro h3
+  rw [if_pos (by simpa using h3)] at hc
+  omega
+
+theorem compose_not_steering (neg : Bool) (sig : U128) (exp : Int16)
+    (hc : Spec.ieeeCanonical sig.toNat = true) (h0 : 0 ≤ exp.toInt) (h1 : exp.toInt ≤ 12287) :
+    (Gen.compose neg sig exp).hi.toNat / 2^61 % 4 ≠ 3 := by
+  rw [Spec.ieeeCanonical] at hc
+  simp only [decide_eq_true_eq, Nat.reducePow] at hc
+  have hs : sig.toNat ≤ Spec.Cmax := by rw [Spec.Cmax]; omega
+  have hw : sig.w1.toNat < 2^49 := by rw [U128.toNat] at hc; omega
+  have hw' : ¬ 2^49 ≤ sig.w1.toNat := by omega
+  rw [compose_hi_toNat neg sig exp hs h0 h1]
+  simp only [hw', if_false]
+  cases neg <;> simp only [if_true, if_false, Bool.false_eq_true] <;> omega
+
+/-- compose uses the steering form exactly when the coefficient needs bit 113 -/
+theorem compose_steering_iff (neg : Bool) (sig : U128) (exp : Int16)
+    (hs : sig.toNat ≤ Spec.Cmax) (h0 : 0 ≤ exp.toInt) (h1 : exp.toInt ≤ 12287) :
+    (Gen.compose neg sig exp).hi.toNat / 2^61 % 4 = 3 ↔ 2^113 ≤ sig.toNat := by
+  have hw : sig.w1.toNat < 5 * 2^47 := by
+    rw [U128.toNat, Spec.Cmax] at hs; have := sig.w0.toNat_lt; omega
+  have hl := sig.w0.toNat_lt
+  rw [compose_hi_toNat neg sig exp hs h0 h1, U128.toNat]
+  by_cases hc : 2^49 ≤ sig.w1.toNat <;> cases neg <;>
+    simp only [hc, if_true, if_false, Bool.false_eq_true] <;> omega
+
+/-- first byte of the interchange string: sign bit and the five leading combination bits -/
+theorem bytesOf_first (d : Gen.Decimal) :
+    (bytesOf d)[0]!.toNat / 128 = d.hi.toNat / 2^63 % 2 ∧
+    (bytesOf d)[0]!.toNat / 4 % 32 = d.hi.toNat / 2^58 % 32 := by
+  have hh := d.hi.toNat_lt
+  have e : (bytesOf d)[0]! = (Go.conv (Go.shr d.hi (56 : Int)) : UInt8) := rfl
+  rw [e, cs56]
+  omega
+
+theorem bytesOf_prefix (d : Gen.Decimal) :
+    Gen.Decimal.Signbit d = decide ((bytesOf d)[0]!.toNat / 128 = 1) ∧
+    Gen.Decimal.IsNaN d = decide ((bytesOf d)[0]!.toNat / 4 % 32 = 31) ∧
+    Gen.Decimal.isInf d = decide ((bytesOf d)[0]!.toNat / 4 % 32 = 30) := by
+  obtain ⟨h1, h2⟩ := bytesOf_first d
+  rw [Signbit_eq, IsNaN_eq, isInf_eq, h1, h2]
+  exact ⟨rfl, rfl, rfl⟩
 
 end Enc
